@@ -97,6 +97,7 @@ func Run(r *vh.Run) {
 		{"inflight", r.Pick(10, 220), scenInflight},
 		{"holstall", r.Pick(6, 80), scenHOL},
 		{"churn", r.Pick(6, 200), scenChurn},
+		{"rejects", r.Pick(5, 80), scenRejects},
 		{"caps", r.Pick(6, 120), scenCaps},
 		{"capsout", r.Pick(2, 30), scenCapsOut},
 		{"shutdown", r.Pick(10, 250), scenShutdown},
@@ -677,6 +678,143 @@ func scenChurn(name string, rng *vh.RNG, r *vh.Run) {
 		r.Add(tc)
 	}
 	for _, tc := range tgCases(name, events, map[int]bool{srv.s.VerifTG(): true}, tags) {
+		r.Add(tc)
+	}
+}
+
+// scenRejects: one connection collects at least MaxInflightRPCs requests that the subnet limit
+// drops (another peer of the subnet pins the subnet's slots), then the subnet drains and the SAME
+// connection must be served again.  A per-peer slot that is not given back on the over-budget
+// path exceeds no limit; it shows only here: the peer is never served again, and the number of
+// per-peer slots in use that the real code reports at a quiescent moment is not zero.
+func scenRejects(name string, rng *vh.RNG, r *vh.Run) {
+	maxPeer := 1 + rng.Intn(3)
+	maxSub := 1 + rng.Intn(2)
+	rejects := 1 + rng.Intn(maxPeer+2) // fewer than MaxInflightRPCs: the peer is still served, only the count shows a leak
+	c := &vh.Case{Name: name, Tags: []string{"scen:rejects", fmt.Sprintf("maxPeer:%d", maxPeer), fmt.Sprintf("maxSub:%d", maxSub)},
+		Info: map[string]any{"maxPeer": maxPeer, "maxSub": maxSub, "rejects": rejects}}
+	defer func() { r.Add(c) }()
+	threadgroup.VerifStart()
+	srv, err := newNode("127.0.0.1", "", func(int) int { return 0 }, true,
+		syncer.WithMaxInflightRPCs(maxPeer), syncer.WithMaxInflightRPCsPerSubnet(maxSub), syncer.WithInflightRPCSubnetPrefixes(24, 48))
+	if err != nil {
+		orc(c, "setup", "server: %v", err)
+		return
+	}
+	genesis := srv.cm.Tip().ID
+	var clients []*node
+	var peers []*syncer.Peer
+	// the pinning peers: each holds at most maxPeer handlers, together they fill the subnet
+	nPin := (maxSub + maxPeer - 1) / maxPeer
+	for i := 0; i <= nPin; i++ { // the last one is the peer whose requests are rejected
+		ip := fmt.Sprintf("127.0.30.%d", i+1)
+		cl, err := newNode(ip, ip, nil, false)
+		if err != nil {
+			orc(c, "setup", "client: %v", err)
+			return
+		}
+		clients = append(clients, cl)
+		p, err := cl.s.Connect(context.Background(), srv.s.Addr())
+		if err != nil {
+			orc(c, "setup", "connect: %v", err)
+			return
+		}
+		peers = append(peers, p)
+	}
+	victim := nPin
+	teardown := func() {
+		srv.gate.setOpen(true)
+		closeWithin(func() { srv.s.Close() }, closeDeadline)
+		for _, cl := range clients {
+			closeWithin(func() { cl.s.Close() }, closeDeadline)
+		}
+	}
+	// phase 1: pin the subnet's slots (requests issued one after the other, handlers held)
+	pinned := make(chan error, maxSub)
+	for k := 0; k < maxSub; k++ {
+		cli := k / maxPeer
+		go func(k int) { pinned <- rpcBlocks(context.Background(), peers[cli], cli, k, genesis, rpcTimeout) }(k)
+		if got := srv.gate.waitInside(k+1, settleDeadline); got != k+1 {
+			orc(c, "inflight-handlers-inside", "pinning request %d did not reach its handler (%d inside)", k, got)
+			teardown()
+			threadgroup.VerifStop()
+			return
+		}
+	}
+	// phase 2: the victim's requests, one after the other; every one must be dropped promptly
+	const promptly = 10 * time.Second
+	for k := 0; k < rejects; k++ {
+		t0 := time.Now()
+		err := rpcBlocks(context.Background(), peers[victim], victim, 100+k, genesis, promptly)
+		if err == nil {
+			orc(c, "inflight-subnet-limit-exceeded", "request %d of the victim was served although the subnet's %d slot(s) are held", k, maxSub)
+		} else if time.Since(t0) > promptly-time.Second {
+			orc(c, "peer-never-served-again", "request %d of a peer whose earlier %d request(s) were dropped by the subnet limit was neither served nor dropped within %v (MaxInflightRPCs %d, MaxInflightRPCsPerSubnet %d): its accept loop no longer takes requests although it has nothing in flight", k, k, promptly, maxPeer, maxSub)
+			break
+		}
+	}
+	// phase 3: drain the subnet
+	srv.gate.setOpen(true)
+	for k := 0; k < maxSub; k++ {
+		select {
+		case err := <-pinned:
+			if err != nil {
+				orc(c, "rpc-lost", "a pinning request failed: %v", err)
+			}
+		case <-time.After(settleDeadline):
+			orc(c, "rpc-lost", "a pinning request did not complete %v after its handler was released", settleDeadline)
+		}
+	}
+	// quiescence: every handler has executed its release hook (one s.slot.ret with b=1 per
+	// started handler), then a pause that is long compared with the two statements between the
+	// hook and the release
+	deadline := time.Now().Add(settleDeadline)
+	for time.Now().Before(deadline) {
+		started, released := 0, 0
+		for _, e := range threadgroup.VerifSnapshot() {
+			switch {
+			case e.Kind == "s.h.start":
+				started++
+			case e.Kind == "s.slot.ret" && e.B == 1:
+				released++
+			}
+		}
+		if started == released {
+			break
+		}
+		time.Sleep(2 * time.Millisecond)
+	}
+	time.Sleep(150 * time.Millisecond)
+	quietFrom := len(threadgroup.VerifSnapshot())
+	// phase 4: the victim (and then a pinning peer) must be served again
+	for _, cli := range []int{victim, 0} {
+		if len(c.Fails) > 0 && cli != victim {
+			break
+		}
+		if err := rpcBlocks(context.Background(), peers[cli], cli, 200+cli, genesis, promptly); err != nil {
+			orc(c, "peer-never-served-again", "after the subnet drained, a request of the peer that had %d request(s) dropped by the subnet limit was not served within %v (%v) although nothing is in flight (MaxInflightRPCs %d, MaxInflightRPCsPerSubnet %d)", rejects, promptly, err, maxPeer, maxSub)
+		}
+		time.Sleep(150 * time.Millisecond)
+	}
+	// the real code's own count of per-peer slots in use, reported at the quiescent moments
+	for _, e := range threadgroup.VerifSnapshot() {
+		if e.Seq >= quietFrom && e.Kind == "s.slot.want" && e.B != 0 {
+			orc(c, "per-peer-slot-leaked", "len(inflight) = %d when a request arrived at a moment at which the peer has nothing in flight (after %d request(s) dropped by the subnet limit, MaxInflightRPCs %d)", e.B, rejects, maxPeer)
+			break
+		}
+	}
+	if ok, _ := closeWithin(func() { srv.s.Close() }, closeDeadline); !ok {
+		orc(c, "syncer-close-hung", "Syncer.Close did not return within %v", closeDeadline)
+	}
+	remotesDisconnected(c, clients)
+	for _, cl := range clients {
+		closeWithin(func() { cl.s.Close() }, closeDeadline)
+	}
+	events := threadgroup.VerifStop()
+	c.Nontrivial = true
+	c.Key = fmt.Sprintf("%s/%d", name, len(events))
+	inventory(c)
+	for _, tc := range inflightCasesQ(name, events, srv.s.VerifID(), srv.s.VerifTG(), maxPeer, maxSub, quietFrom, []string{"scen:rejects"}) {
 		r.Add(tc)
 	}
 }
